@@ -142,10 +142,18 @@ func (c *AppenderRefs) sortByLevel() {
 		return iCode < jCode
 	})
 
-	// Adjust MaxLevel to match the next appender's MinLevel if needed
-	for i := len(c.AppenderRefs) - 1; i >= 1; i-- {
-		if c.AppenderRefs[i-1].Level.MaxLevel == MaxLevel {
-			c.AppenderRefs[i-1].Level.MaxLevel = c.AppenderRefs[i].Level.MinLevel
+	// An open-ended reference ends where the next strictly higher lower bound begins,
+	// so references with equal lower bounds share the same (non-empty) range.
+	next := MaxLevel
+	for i := len(c.AppenderRefs) - 1; i >= 0; i-- {
+		r := c.AppenderRefs[i]
+		if i+1 < len(c.AppenderRefs) {
+			if n := c.AppenderRefs[i+1].Level.MinLevel; n.code > r.Level.MinLevel.code {
+				next = n
+			}
+		}
+		if r.Level.MaxLevel == MaxLevel {
+			r.Level.MaxLevel = next
 		}
 	}
 }
